@@ -1,6 +1,36 @@
-(* C08 - statements only; proofs in the *Facts.v files. (grows) *)
-From Sbdf Require Import Va VaFacts PrimFacts ObjFacts.
-Theorem C08_value_array_wire : forall swp v, wf_va v -> byte_ok (vty v) ->
-  wspec (va_write swp v) (Ok tt) (enc_va swp v) /\ rspec (va_read swp None) (enc_va swp v) v.
-Proof. intros swp v W B. split; [exact (wspec_va swp v W)|exact (rspec_va swp v W B)]. Qed.
-Print Assumptions C08_value_array_wire.
+(* C08 — re-serialising what was read reproduces the file byte for byte.
+   For the sections below: the reader returns the value whose wire form is the input, and the
+   writer's output is that wire form; hence write (read bs) = bs.  Statements only. *)
+From Sbdf Require Import File PrimFacts SevenBit ObjFacts VaFacts SliceFacts FileFacts.
+
+Theorem C08_value_array : forall swp v tail budget, wf_va v -> byte_ok (vty v) -> zlen (enc_va swp v) <= budget ->
+  exists v', va_read swp None (enc_va swp v ++ tail) = Ok (v', tail) /\ wrun (va_write swp v') budget = (SBDF_OK, enc_va swp v).
+Proof.
+  intros swp v tail budget W B Hb. exists v. split; [destruct (rspec_va swp v W B) as [E _]; apply E|].
+  pose proof (BaseFacts.zlen_nonneg (enc_va swp v)).
+  destruct (wspec_run _ _ _ budget (wspec_va swp v W) ltac:(lia)) as [H1 _]. now apply H1.
+Qed.
+Print Assumptions C08_value_array.
+
+(* the owned flag set by the reader does not change what is written *)
+Theorem C08_column_slice : forall swp c tail budget, wf_cs c -> zlen (enc_cs swp c) <= budget ->
+  exists c', cs_read swp None (enc_cs swp c ++ tail) = Ok (c', tail) /\ wrun (cs_write swp c') budget = (SBDF_OK, enc_cs swp c).
+Proof.
+  intros swp c tail budget W Hb. exists (owned_cs c). split; [destruct (rspec_cs swp c W) as [E _]; apply E|].
+  pose proof (BaseFacts.zlen_nonneg (enc_cs swp c)).
+  assert (W' : wf_cs (owned_cs c)) by exact W.
+  destruct (wspec_run _ _ _ budget (wspec_cs swp (owned_cs c) W') ltac:(lia)) as [H1 _]. now apply H1.
+Qed.
+Print Assumptions C08_column_slice.
+
+(* decoding a default-encoded array and re-encoding it with the default encoding gives the same
+   array (plain for everything but booleans, bit-packed for booleans that are 0/1) *)
+Theorem C08_default_reencode_plain : forall o, obj_ok o -> oty o <> SBDF_BOOLTYPEID ->
+  exists v, va_create_dflt o = Ok v /\ va_get_values v = Ok o /\
+            forall o', va_get_values v = Ok o' -> va_create_dflt o' = Ok v.
+Proof.
+  intros o H Hb. unfold va_create_dflt. destruct (oty o =? SBDF_BOOLTYPEID) eqn:E; [lia|].
+  destruct (va_plain_lossless o H) as (v & A & B & _). exists v. split; [exact A|split; [exact B|]].
+  intros o' B'. rewrite B in B'. inversion B'. subst o'. now rewrite E.
+Qed.
+Print Assumptions C08_default_reencode_plain.
